@@ -84,6 +84,12 @@ class Check(PropertyCheck):
                 if bad:
                     lines.append(f"disp {bad[0]} {bad[1]} {bad[2]}")
             else:
+                if rng.random() < 0.3:
+                    # the user (or a rule / filter) looked at the dispatcher just before deciding
+                    nops = gen.num_ops(jobs)
+                    for _q in range(rng.randint(1, 4)):
+                        lines.append(rng.choice([f"q earliest_start {rng.randrange(nops)}", "q available", "q current_time",
+                                                 "q ongoing", "q unscheduled", "q raw_ready"]))
                 j, p, m = gen.gen_valid_request(rng, tr)
                 tr.take(j)
                 n_acc += 1
@@ -142,6 +148,11 @@ class Check(PropertyCheck):
         d = impl.dispatcher
         if d is None:
             return res
+        # what a subscriber saw when it asked the dispatcher from inside its callback (recorders with tag 2 do)
+        for msg in getattr(impl, "inside_bad", [])[:2]:
+            res.append(("inside-callback", f"after `{line}`: {msg}"))
+        if getattr(impl, "inside_bad", None):
+            impl.inside_bad.clear()
         if line.startswith("inst"):
             ctx.update(trace_len=0, expected_hist={}, sub_since={})
             return res
